@@ -25,3 +25,13 @@ func VerifHoldHub(h *Hub, d time.Duration) {
 	time.Sleep(d)
 	h.mu.Unlock()
 }
+
+// VerifChanParents counts the booking ids the hub's chanmap store keeps a child map for (empty maps included).
+func VerifChanParents(h *Hub) int {
+	if h.dcs == nil {
+		return 0
+	}
+	h.dcs.Lock()
+	defer h.dcs.Unlock()
+	return len(h.dcs.ChildrenByParent)
+}
